@@ -31,7 +31,9 @@
 (* that may fail returns an option: <<>> (the call raised) or <<value>>.   *)
 (* Positions are 1-based here and 0-based in Python.                       *)
 (*                                                                         *)
-(* Named deviation of the machine from the ideal (open finding of C20):    *)
+(* Named deviation of the machine from the ideal (finding of C20, repaired  *)
+(* in /repo by d407643; DevStrTrunc = FALSE transcribes the repaired code, *)
+(* TRUE the code before the fix):                                          *)
 (*   "array_str_trunc" : RowCollector(array=True) with a column declared   *)
 (*        dtype=str keeps only the first character of every appended       *)
 (*        string (the empty array has dtype <U1 and append() converts the  *)
